@@ -98,6 +98,12 @@ pub fn divrem_pred<K1: Kind, K2: Kind>(op: Op) {
         (V::B(_), V::I(y)) => (y == 0, false, false, false),
         (V::U(_), V::B(y)) => (!y, false, false, false),
         (V::B(_), V::U(y)) => (y == 0, false, false, false),
+        // bool with bool: the statement does not settle it (see spec::arith) - totality only
+        (V::B(_), V::B(_)) => {
+            witness!(true, "statement silent: totality only");
+            core::mem::forget(r);
+            return;
+        }
         _ => (false, false, false, true),
     };
     if float {
@@ -129,31 +135,31 @@ pub fn divrem_pred<K1: Kind, K2: Kind>(op: Op) {
     core::mem::forget(r);
 }
 
-const BOUNDARY_I: [i64; 12] = [
-    0, 1, -1, 1 << 31, -(1 << 31), (1 << 31) + 1, (1 << 31) - 1, i64::MIN, i64::MIN + 1, i64::MAX, i64::MAX - 1, -2,
-];
-const BOUNDARY_U: [u64; 9] = [0, 1, 2, 1 << 31, (1 << 31) + 1, i64::MAX as u64, 1 << 63, (1 << 63) + 1, u64::MAX];
-
+/// |x| < 2^bits, or one of the boundary values {0, +-1, +-2, +-2^31, 2^31+-1, i64::MIN(+1),
+/// i64::MAX(-1)} resp. {0, 1, 2, 2^31(+1), i64::MAX, 2^63(+1), u64::MAX}. Written without a
+/// loop so that no unwinding is needed.
 fn small_or_boundary(v: V, bits: u32) -> bool {
     match v {
         V::I(x) => {
             let lim = 1i64 << bits;
-            let mut ok = x > -lim && x < lim;
-            let mut i = 0;
-            while i < BOUNDARY_I.len() {
-                ok = ok || x == BOUNDARY_I[i];
-                i += 1;
-            }
-            ok
+            (x > -lim && x < lim)
+                || x == 1 << 31
+                || x == -(1 << 31)
+                || x == (1 << 31) + 1
+                || x == (1 << 31) - 1
+                || x == i64::MIN
+                || x == i64::MIN + 1
+                || x == i64::MAX
+                || x == i64::MAX - 1
         }
         V::U(x) => {
-            let mut ok = x < (1u64 << bits);
-            let mut i = 0;
-            while i < BOUNDARY_U.len() {
-                ok = ok || x == BOUNDARY_U[i];
-                i += 1;
-            }
-            ok
+            x < (1u64 << bits)
+                || x == 1 << 31
+                || x == (1 << 31) + 1
+                || x == i64::MAX as u64
+                || x == 1 << 63
+                || x == (1 << 63) + 1
+                || x == u64::MAX
         }
         _ => true,
     }
